@@ -99,8 +99,11 @@ def mn_class(name):
 
 
 def msg_class(msg):
-    msg = re.sub(r'\d+', 'N', msg)
-    return msg[:60]
+    return msg[:70]
+
+
+def mode_class(i):
+    return 'o%d/a%d' % (16 if i.opmode == E.A.u16 else 32, 16 if i.admode == E.A.u16 else 32)
 
 
 def run_lift(job, res, tier):
@@ -139,7 +142,7 @@ def run_lift(job, res, tier):
         try:
             wide, dup, stores = strict_apply(affs, c)
         except ir2smt.IllTyped as ex:
-            return ('CEX', 'illtyped:%s:%s' % (name, msg_class(ex.msg)), '%s: %s' % (name, ex.msg), wit())
+            return ('CEX', 'illtyped:%s:%s:%s' % (name, mode_class(i), msg_class(ex.msg)), '%s: %s' % (name, ex.msg), wit())
         except ir2smt.Untranslatable as ex:
             return ('ABORT', 'untranslatable: %s' % ex)
         if dup:
